@@ -47,7 +47,7 @@ type c16Row struct {
 }
 
 // key parts whose contents differ only in escaping-relevant characters
-var partText = map[string]string{"p1": "a,b", "p2": "a%2Cb", "p3": "a b(:)'"}
+var partText = map[string]string{"p1": "a,b", "p2": "a%2Cb", "p3": "a+b (:)'"} // p3: a plus and a space -- the ids parameter is a QUERY string
 var partNum = map[string]int64{"p1": 1, "p2": 1, "p3": -7}
 
 func refEscape(s string, alt bool) string {
@@ -335,7 +335,7 @@ func runC16(file string, stats map[string]int) {
 				} else {
 					enc = partText[k.Part]
 				}
-				if n := strings.Count(q, enc); n != 1 && rn.name == "collCK" {
+				if n := strings.Count(q, enc); n != 1 && rn.name != "collStr" {
 					violation("C16/"+rn.name+"/id-not-sent-once", fmt.Sprintf("key part %q occurs %d times in the ids parameter %q", partText[k.Part], n, q), rcs)
 				}
 			}
